@@ -10,6 +10,7 @@ product `μ·span` and every span *ratio* has degree 0.  Theorems: exact arithme
 where positions are compared), models of `Model/Scale.lean` run against the real code in stage B.
 -/
 import TsdateVerif.Proofs.ScaleDiscrete
+import TsdateVerif.Proofs.ScaleCount
 
 namespace Tsdate.C07
 open Tsdate Tsdate.Scale
@@ -44,6 +45,24 @@ theorem C07_vgamma {Out : Type} (ep : List (α × α) → Out) (c : α) (hc : c 
     (stats : List (α × α)) (mu : α) :
     ep (edgeLikelihoods (stats.map (fun s => (s.1, c * s.2))) (mu / c)) = ep (edgeLikelihoods stats mu) := by
   rw [edge_likelihoods_invariant c hc]
+
+/-- **`_count_mutations` (plain variant) under a change of genome unit**, from the committed correctness
+theorem of the sweep (`CountMut.countWith_correct`, C24): on valid tables (`Static`: tskit's index and
+geometry invariants, no node with two parents at one position) and a valid mutation table, with every
+coordinate (edge ends, sequence length, site positions) multiplied by `c > 0` the kernel still returns
+normally, maps every mutation to the same edge, counts the same mutations on every edge and returns every
+span multiplied by `c` — the hypothesis of `C07_vgamma`.  The sweep only compares positions. -/
+theorem count_mutations_span_scaled [Inhabited α] (c : α) (hc : 0 < c) (T : Tsdate.Sweep.Tables α)
+    (M : Tsdate.CountMut.Muts α) (mask : Array Bool) (order : List Nat) (time : Nat → α)
+    (hS : Tsdate.CountMut.Static T mask.size false time) (hsz : M.pos.size = M.node.size)
+    (hM : Tsdate.CountMut.MutsValid M mask.size order) :
+    ∃ s s', Tsdate.CountMut.countWith T M mask false order = some s ∧
+      Tsdate.CountMut.countWith (scaleTables c T) (scaleMuts c M) mask false order = some s' ∧
+      s.err = false ∧ s'.err = false ∧
+      (∀ m, m < M.node.size → aget s'.mutEdge m = aget s.mutEdge m) ∧
+      (∀ e, e < T.numEdges → aget s'.edgeMuts e = aget s.edgeMuts e ∧
+        aget s'.edgeSpan e = c * aget s.edgeSpan e) :=
+  countMutations_coord c hc T M mask order time hS hsz hM
 
 /-- **Span fractions** (`edge.span / self.spans[edge.child]`, root-span fractions): node spans scale with
 the coordinates, fractions do not change. -/
